@@ -112,7 +112,10 @@ func c20a(c *Ctx) {
 			return true
 		}
 	}
-	c.guardSuccess(f, "origin == log name", g.EdgesImplying(func(a Atom) bool { rel, ok := cmpRel(a, fld(ckObj, "Origin"), fld(logObj, "Name")); return ok && rel == relEQ }), both,
+	c.guardSuccess(f, "origin == log name", g.EdgesImplying(func(a Atom) bool {
+		rel, ok := cmpRel(a, fld(ckObj, "Origin"), fld(logObj, "Name"))
+		return ok && rel == relEQ
+	}), both,
 		"a checkpoint of another origin is reported healthy")
 	// timestamp
 	tsc := f.Calls(Callee{pkgRoot, "", "RFC6962SignatureTimestamp"})
